@@ -447,8 +447,45 @@ type State struct {
 }
 
 type WriteLog struct {
-	cells map[*Cell]bool
+	cells map[*Cell]bool    // cells written (at all)
+	paths map[*Cell][][]int // field paths written; a nil path = whole cell
 	heaps map[string]bool
+}
+
+func newWriteLog() *WriteLog {
+	return &WriteLog{cells: map[*Cell]bool{}, paths: map[*Cell][][]int{}, heaps: map[string]bool{}}
+}
+
+func (l *WriteLog) note(loc Loc) {
+	switch x := loc.(type) {
+	case VarLoc:
+		l.cells[x.C] = true
+		l.paths[x.C] = append(l.paths[x.C], nil)
+	case FieldLoc, IndexLoc:
+		// find root cell and the field path down to the first non-field step
+		var path []int
+		cur := loc
+		for {
+			switch y := cur.(type) {
+			case FieldLoc:
+				path = append([]int{y.I}, path...)
+				cur = y.Base
+				continue
+			case IndexLoc:
+				path = nil // element of an array field: the whole array (sub)value is written
+				cur = y.Base
+				continue
+			case VarLoc:
+				l.cells[y.C] = true
+				if len(path) == 0 {
+					l.paths[y.C] = append(l.paths[y.C], nil)
+				} else {
+					l.paths[y.C] = append(l.paths[y.C], path)
+				}
+			}
+			break
+		}
+	}
 }
 
 func (st *State) fork() *State {
@@ -652,11 +689,15 @@ func (e *Engine) arrUpdate(a ArrVal, idx *Term, v Val) ArrVal {
 }
 
 func (e *Engine) store(st *State, l Loc, v Val) {
+	if st.log != nil {
+		st.log.note(l)
+	}
+	e.storeRec(st, l, v)
+}
+
+func (e *Engine) storeRec(st *State, l Loc, v Val) {
 	switch x := l.(type) {
 	case VarLoc:
-		if st.log != nil {
-			st.log.cells[x.C] = true
-		}
 		if b, ok := st.vals[x.C].(BoxedArr); ok {
 			if _, isBox := v.(BoxedArr); !isBox {
 				av := v.(ArrVal)
@@ -669,7 +710,7 @@ func (e *Engine) store(st *State, l Loc, v Val) {
 		b := e.load(st, x.Base).(StructVal)
 		n := StructVal{Sh: b.Sh, F: append([]Val{}, b.F...)}
 		n.F[x.I] = v
-		e.store(st, x.Base, n)
+		e.storeRec(st, x.Base, n)
 	case IndexLoc:
 		if vl, ok := x.Base.(VarLoc); ok {
 			if b, ok := st.vals[vl.C].(BoxedArr); ok {
@@ -678,7 +719,7 @@ func (e *Engine) store(st *State, l Loc, v Val) {
 			}
 		}
 		b := e.load(st, x.Base).(ArrVal)
-		e.store(st, x.Base, e.arrUpdate(b, x.Idx, v))
+		e.storeRec(st, x.Base, e.arrUpdate(b, x.Idx, v))
 	case HeapElemLoc:
 		e.heapWriteElem(st, x.Sh, x.Ref, x.Idx, v)
 	case HeapObjLoc:
@@ -823,6 +864,11 @@ func (e *Engine) join(base *State, sts []*State) []*State {
 			}
 		}
 		guards[i] = e.C.And(s.pc[n:]...)
+		// branches that assumed quantified facts (contract calls, copies) stay separate
+		// paths: quantifiers under a disjunction defeat instantiation
+		if containsQuant(guards[i]) {
+			return sts
+		}
 	}
 	m := sts[len(sts)-1].fork()
 	m.pc = append([]*Term{}, base.pc...)
